@@ -18,7 +18,8 @@ RULE = ('three streams. bind: EVERY signature with 0-4 positional parameters x 0
         'with None, 0, "", [], False, NaN, (), {}, 0.0 (evaluations counted per distinct combination exactly) with repeated, ==-equal (1, 1.0, True) and '
         'unhashable list/dict arguments, lists vs tuples vs dict-item tuples of the same content, keywords in different orders; compared: every return and the '
         'list of evaluated calls. The oracle is written from the property text (inspect as reference binding, Python == on the arguments as passed for '
-        '"distinct combination"). non-trivial = valid call passing >= 1 keyword or using a default (bind), stack of >= 2 or raising f (stack), sequence with a '
+        '"distinct combination"). tryhist: try_value with a mutable fallback ([], {}, filled, list subclass, try_list) over histories in which f raises >= 2 times '
+        'and the caller mutates every fallback it receives: every fallback must be the pristine value and a new object. non-trivial = valid call passing >= 1 keyword or using a default (bind), stack of >= 2 or raising f (stack), sequence with a '
         'repeated combination (cache); distinct by full input')
 EXPLANATION = ('theorems C18_* (coq/props/C18.v) hold for every signature, every call, every chain of wrapper types and every call sequence (induction, no '
                'bound); the correspondence ties the models of M_deco.v to _inspect.py / _decorators.py / _cache.py on the exhaustive scopes above')
@@ -62,11 +63,13 @@ def coq_av(e):
     return '(ADict [%s])' % '; '.join('(%s, %s)' % (coq_str(k), coq_av(v)) for k, v in e['d'])
 
 def coq_runner(case):
-    return {'bind': 'run_bind', 'stack': 'run_stack', 'cache': 'run_cache'}[case['kind']]
+    return {'bind': 'run_bind', 'stack': 'run_stack', 'cache': 'run_cache', 'tryhist': 'run_tryhist'}[case['kind']]
 def coq_case(case):
     k = case['kind']
     if k == 'bind':
         return '(%s, %s)' % (coq_sig(case), coq_call(case))
+    if k == 'tryhist':
+        return '(%s, [%s])' % (coq_av(case['value']), '; '.join('true' if b else 'false' for b in case['steps']))
     if k == 'stack':
         return '([%s], %s, %s, %s)' % ('; '.join(TAG[d] for d in case['decos']), coq_sig(case), 'true' if case['raises'] else 'false', coq_call(case))
     return '([%s], [%s])' % ('; '.join(coq_av(r) for r in ret_pool(case)),
@@ -271,20 +274,57 @@ def impl_cache(case):
         viol = '%d evaluations for %d distinct combinations of arguments' % (len(evaluated), len(seen))
     return {'status': status, 'obs': [rets, evaluated], 'viol': viol}
 
+class CustomList(list):
+    pass
+
+def impl_tryhist(case):
+    """try_value(value = <mutable>) over a history: f raises on the marked steps; the caller mutates every fallback it gets"""
+    import copy as _copy
+    from pyg_base._decorators import try_value
+    from pyg_base import try_list
+    v = dec(case['value'])
+    if case.get('custom'): v = CustomList(v)
+    pristine = _copy.deepcopy(v)
+    def f(i, fail):
+        if fail: raise ValueError('step %d' % i)
+        return i
+    w = try_list(f) if case.get('via') == 'try_list' else try_value(value=v)(f)
+    obs = []; viol = None; status = 'ok'; handed = []
+    for i, fail in enumerate(case['steps']):
+        try:
+            r = w(i, fail)
+        except Exception as e:
+            status = err_name(e); obs.append(['ERR', status]); viol = viol or 'try_value raised %s at step %d' % (status, i); continue
+        obs.append(canon_av(list(r)) if isinstance(r, CustomList) else canon_av(r))
+        if not fail:
+            if viol is None and r != i: viol = 'step %d returned %r, f returned %r' % (i, r, i)
+            continue
+        if viol is None:
+            if type(r) is not type(pristine) or r != pristine:
+                viol = 'failure %d (step %d) returned %r, the fallback is %r (earlier fallbacks were mutated by the caller)' % (len(handed) + 1, i, r, pristine)
+            elif any(r is h for h in handed):
+                viol = 'failure %d (step %d) returned the same object as an earlier failure' % (len(handed) + 1, i)
+        handed.append(r)
+        if isinstance(r, list): r.append(99)           # the caller uses what it was given
+        elif isinstance(r, dict): r['zz'] = 99
+    return {'status': status, 'obs': obs, 'viol': viol}
+
 def impl(case):
-    return {'bind': impl_bind, 'stack': impl_stack, 'cache': impl_cache}[case['kind']](case)
+    return {'bind': impl_bind, 'stack': impl_stack, 'cache': impl_cache, 'tryhist': impl_tryhist}[case['kind']](case)
 
 # ------------------------------------------------------------------ classification
 def nontrivial(case, result):
     k = case['kind']
     if k == 'bind': return bool(result.get('valid')) and (len(case['kw']) > 0 or len(case['args']) < case['npos'])
     if k == 'stack': return len(case['decos']) > 1 or case['raises']
+    if k == 'tryhist': return sum(case['steps']) >= 2
     keys = [json.dumps(c, sort_keys=True) for c in case['calls']]
     return len(set(keys)) < len(keys)
 def shape(case):
     k = case['kind']
     if k == 'bind': return 'bind:n%d:d%d:%s%s' % (case['npos'], case['ndef'], 'v' if case['va'] else '', 'k' if case['vk'] else '')
     if k == 'stack': return 'stack:%d%s' % (len(case['decos']), ':raises' if case['raises'] else '')
+    if k == 'tryhist': return 'tryhist:%d' % sum(case['steps'])
     return 'cache:%d' % len(case['calls'])
 
 # ------------------------------------------------------------------ generation
@@ -383,6 +423,13 @@ def gen_cases(rng, tier):
     for r0 in RET_POOL:                 # f returns r0 once, the same call repeated three times
         for c0 in ({'args': [], 'kw': []}, {'args': [1], 'kw': []}, {'args': [{'l': [1]}], 'kw': [['k', None]]}):
             cases.append({'kind': 'cache', 'calls': [c0, c0, c0], 'rets': [r0, 5, 6]})
+    # try_* with a mutable fallback over a history in which the caller mutates what it is given
+    for value, extra in (({'l': []}, {}), ({'l': []}, {'via': 'try_list'}), ({'d': []}, {}), ({'l': [1, 2]}, {}), ({'d': [['x', 1]]}, {}),
+                         ({'l': []}, {'custom': 1}), ({'l': [5]}, {'custom': 1})):
+        for steps in ([1, 1], [1, 1, 1], [1, 0, 1], [0, 1, 1, 0, 1], [1, 1, 0, 1, 1, 1]):
+            cases.append(dict({'kind': 'tryhist', 'value': value, 'steps': steps}, **extra))
+        for _ in range(2 if quick else 20):
+            cases.append(dict({'kind': 'tryhist', 'value': value, 'steps': [int(rng.random() < 0.6) for _ in range(rng.choice([2, 4, 7]))]}, **extra))
     for x, y in itertools.permutations(AV_POOL[:19], 2):      # every ordered pair of the small pool as a two-call history
         cases.append({'kind': 'cache', 'calls': [{'args': [x], 'kw': []}, {'args': [y], 'kw': []}]})
     return cases
